@@ -186,6 +186,16 @@ const huntTol64 = 1e-9
 func propCheck(c Case) string {
 	n := c.N
 	r := execCase(c) // the history c.Pre first, then the call
+	if c.View != nil {
+		if len(r.Kind) > 5 && r.Kind[:5] == "other" {
+			return "unexpected outcome " + r.Kind
+		}
+		// frame / read-only operands / view-vs-workspace consistency; the logical results of r are replaced by the
+		// ones loaded from the dumped workspaces with the harness' own coordinate map
+		if f := viewOracle(c, &r); f != "" {
+			return f
+		}
+	}
 	// the exact values are those of the inputs AS THE ELEMENT TYPE HOLDS THEM; tolerances follow its precision
 	c = effective(c)
 	huntTol, detTol, pdTol := huntTol64, 1e-10, 1e-9
@@ -310,14 +320,25 @@ func propCheck(c Case) string {
 			return fmt.Sprintf("||R*x - b||_inf = %.3g", res)
 		}
 	case "Det":
-		d, _ := ratDet(toRat(c.A)).Float64()
-		bound := 1.0
+		exact := ratDet(toRat(c.A))
+		d, _ := exact.Float64()
+		// permanent-type bound of the rounding error of the cofactor expansion: prod_i (sum_j |a_ij|), relative to the
+		// size of the entries (round 6: no clamping at 1, so that matrices scaled far away from 1 are really checked)
+		bound, lb := 1.0, 0.0
 		for i := range c.A {
 			s := 0.0
 			for _, v := range c.A[i] {
 				s += math.Abs(v)
 			}
-			bound *= math.Max(s, 1)
+			bound *= s
+			lb += math.Log2(math.Max(s, math.SmallestNonzeroFloat64))
+		}
+		lim := 1000.0
+		if is32(c.et()) {
+			lim = 120
+		}
+		if math.Abs(lb) > lim || bound == 0 || math.IsInf(bound, 0) {
+			return "" // intermediate products may leave the range of the element type: nothing is claimed
 		}
 		if r.Kind != "ok" || !(math.Abs(d-r.V) <= detTol*bound) {
 			return fmt.Sprintf("determinant %v, exact %v", r.V, d)
@@ -326,24 +347,19 @@ func propCheck(c Case) string {
 		if !exactPD(c.A) {
 			return ""
 		}
-		d, _ := ratDet(toRat(c.A)).Float64()
-		if c.Log {
-			if r.Kind != "ok" || !(math.Abs(r.V-math.Log(d)) <= pdTol*math.Max(1, math.Abs(math.Log(d)))) {
-				return fmt.Sprintf("log-determinant %v (%s), log of exact determinant %v", r.V, r.Kind, math.Log(d))
-			}
-			return ""
+		exact := ratDet(toRat(c.A))
+		ld := ratLog(exact) // natural logarithm of the exact determinant, finite whatever its size
+		if f := checkPDValue(c, r, exact, ld, pdTol); f != "" {
+			return f
 		}
-		if r.Kind != "ok" || !(math.Abs(d-r.V) <= pdTol*math.Abs(d)) {
-			return fmt.Sprintf("PD determinant %v (%s), exact %v", r.V, r.Kind, d)
-		}
-		if c.ET != "" {
+		if c.ET != "" || c.View != nil {
 			return ""
 		}
 		// log scale
 		m := newMatE(c, c.A)
 		l, err := determinant.Run(m, determinant.PositiveDefinite{true}, determinant.LogScale{true})
-		if err != nil || !(math.Abs(l.GetFloat64()-math.Log(d)) <= 1e-9*math.Max(1, math.Abs(math.Log(d)))) {
-			return fmt.Sprintf("log-determinant %v, log of exact determinant %v", l, math.Log(d))
+		if err != nil || !(math.Abs(l.GetFloat64()-ld) <= 1e-9*math.Max(1, math.Abs(ld))) {
+			return fmt.Sprintf("log-determinant %v, log of exact determinant %v", l, ld)
 		}
 	case "Perm":
 		if r.Kind != "ok" {
@@ -389,6 +405,62 @@ func propCheck(c Case) string {
 }
 
 func newMatE(c Case, m [][]float64) ad.Matrix { return newMat(c.Dense, m, c.N) }
+
+// natural logarithm of a positive rational of any size (never overflows): ln(num) - ln(den) through
+// mantissa / binary exponent
+func ratLog(x *big.Rat) float64 {
+	if x.Sign() <= 0 {
+		return math.NaN()
+	}
+	ln := func(z *big.Int) float64 {
+		f := new(big.Float).SetInt(z)
+		mant := new(big.Float)
+		e := f.MantExp(mant)
+		m, _ := mant.Float64()
+		return math.Log(m) + float64(e)*math.Ln2
+	}
+	return ln(x.Num()) - ln(x.Denom())
+}
+
+// determinant.Run(a, PositiveDefinite{true} [, LogScale{true}]) against the exact determinant `exact` (ld = its
+// logarithm).  LogScale: |result - ld| small, WHATEVER the size of the determinant.  Product form: the exact value
+// correctly rounded to the element type up to a relative tolerance; beyond the range of the type (by a factor of
+// 16 at least) that is +Inf / 0; nothing is claimed inside the subnormal range and within a factor of 16 of the
+// range limits
+func checkPDValue(c Case, r Result, exact *big.Rat, ld, pdTol float64) string {
+	if c.Log {
+		if r.Kind != "ok" || !(math.Abs(r.V-ld) <= pdTol*math.Max(1, math.Abs(ld))) {
+			return fmt.Sprintf("log-determinant %v (%s), log of exact determinant %v", r.V, r.Kind, ld)
+		}
+		return ""
+	}
+	maxExp, minExp := 1024.0, -1022.0 // binary64: 2^1024 overflows, 2^-1022 smallest normal
+	subExp := -1074.0
+	if is32(c.et()) {
+		maxExp, minExp, subExp = 128, -126, -149
+	}
+	l2 := ld / math.Ln2
+	switch {
+	case l2 > maxExp+4:
+		if r.Kind != "ok" || !math.IsInf(r.V, 1) {
+			return fmt.Sprintf("PD determinant %v (%s), the exact determinant 2^%.1f is beyond the range of the element type (+Inf expected)", r.V, r.Kind, l2)
+		}
+	case l2 > maxExp-4:
+		return ""
+	case l2 < subExp-4:
+		if r.Kind != "ok" || !(r.V >= 0 && r.V <= math.Ldexp(1, int(subExp)+2)) {
+			return fmt.Sprintf("PD determinant %v (%s), the exact determinant 2^%.1f is below the range of the element type (0 expected)", r.V, r.Kind, l2)
+		}
+	case l2 < minExp+4:
+		return ""
+	default:
+		d, _ := exact.Float64()
+		if r.Kind != "ok" || !(math.Abs(d-r.V) <= pdTol*math.Abs(d)) {
+			return fmt.Sprintf("PD determinant %v (%s), exact %v", r.V, r.Kind, d)
+		}
+	}
+	return ""
+}
 
 // float32 element types: inverse through the generic path, residual to single precision
 func propCheck32(a [][]float64, real bool) string {
@@ -477,6 +549,7 @@ func dropIndex(c Case, k int) Case {
 		d.B = append(append([]float64{}, c.B[:k]...), c.B[k+1:]...)
 	}
 	d.Msk = append(append([]bool{}, c.Msk[:k]...), c.Msk[k+1:]...)
+	d.View = shrinkViews(c)
 	return d
 }
 
@@ -579,10 +652,27 @@ func shrink(c Case) Case {
 			}
 		}
 	}
-	if c.InSitu {
+	if c.InSitu && c.View == nil {
 		d := c
 		d.InSitu = false
 		if fails(d) {
+			c = d
+		}
+	}
+	// view cases: which operands need to be views?  (a view that shares the workspace of a dropped operand gets
+	// its own workspace of the same dimensions)
+	for _, name := range viewNames(c) {
+		d := c
+		d.View = map[string]VW{}
+		for k, v := range c.View {
+			if k != name {
+				if v.Share == name {
+					v.Share = ""
+				}
+				d.View[k] = v
+			}
+		}
+		if len(d.View) > 0 && fails(d) {
 			c = d
 		}
 	}
@@ -755,6 +845,14 @@ func hunt(o Opts) {
 			for _, c := range seq {
 				try(c)
 			}
+		}
+		// round 6: operands / in-situ buffers that are views of a larger workspace; determinants far outside the
+		// float range (size x scale), all element types
+		for _, c := range viewStream(NewRng(o.Seed+611953), o.N/5) {
+			try(c)
+		}
+		for _, c := range scaledDetStream(NewRng(o.Seed+224737), o.N/10) {
+			try(c)
 		}
 		rng := NewRng(o.Seed + 104729)
 		for k := 0; k < o.N; k++ {
